@@ -24,7 +24,7 @@ REQUIRED = ['evaluations', 'wifi_checked', 'mecard_checked', 'vcard_checked', 'g
             'epc_refused_as_expected', 'symbols_checked', 'adversarial_values_used']
 TIMEOUT = {'quick': 3600, 'thorough': 21600}
 
-NASTY = [';', ':', ',', '\\', '"', '\r\n', '\n', '\r', '\\;', ';;', '\\\\', 'a;b', 'x:y', 'T:WPA;P:1', ';TEL:666', '\\', 'tail\\',
+NASTY = ['RF18539007547034', 'RF18 5390 0754 7034', 'RF471234567890', ';', ':', ',', '\\', '"', '\r\n', '\n', '\r', '\\;', ';;', '\\\\', 'a;b', 'x:y', 'T:WPA;P:1', ';TEL:666', '\\', 'tail\\',
          '\\;tail', '"quoted"', 'a,b', ' ', 'ü', '東京', '☃', '%41', '&', '=', '?', '#', '+', "'",
          # characters that are canonically equivalent to a delimiter or to a Latin-1 character (U+037E ~ ';', U+0387 ~
          # U+00B7, KELVIN / ANGSTROM SIGN, letter + combining mark): the payload carries them as given
@@ -117,7 +117,7 @@ def gen_cases(tier, seed):
     return cases
 
 
-EPC_TEXT = ['Rechnung 4711', 'François Müller', 'Spende', 'Invoice no. 12', 'Łódź', 'Ελλάδα', 'Привет', 'Škoda', 'a' * 140, 'x',
+EPC_TEXT = ['RF18539007547034', 'RF471234567890', 'RF18539007547034 x', 'Rechnung 4711', 'François Müller', 'Spende', 'Invoice no. 12', 'Łódź', 'Ελλάδα', 'Привет', 'Škoda', 'a' * 140, 'x',
             'Ünïcödé ☃', 'Nāme', 'Wikimedia Foerdergesellschaft']
 
 
